@@ -205,7 +205,6 @@ Proof.
 Qed.
 
 (* ---------- centering: absorbing the column-mean constraint gives zero column means ---------- *)
-Fixpoint qsum (n : nat) (f : nat -> Q) : Q := match n with O => 0 | S n' => qsum n' f + f n' end.
 Lemma qsum_ext n f g : (forall i, (i < n)%nat -> f i == g i) -> qsum n f == qsum n g.
 Proof. induction n as [|n IH]; intros H; cbn [qsum]; [reflexivity|]. rewrite IH, H by (intros; auto with arith). reflexivity. Qed.
 Lemma qsum_plus n f g : qsum n (fun i => f i + g i) == qsum n f + qsum n g.
@@ -251,10 +250,6 @@ Proof.
     + intros i Hi. unfold delta. replace (Nat.eqb i m) with false by (symmetry; apply Nat.eqb_neq; lia). ring.
   - rewrite IH by lia. ring.
 Qed.
-(* checkable: b.F = d for the cyclic system *)
-Definition cyclic_F_ok (kn : list Q) (F : nat -> nat -> Q) : bool :=
-  let n := (length kn - 1)%nat in
-  forallb (fun m => forallb (fun k => Qeq_bool (qsum n (fun j => cyc_B kn n m j * F j k)) (cyc_D kn n m k)) (seq 0 n)) (seq 0 n).
 Lemma prevn_lt n m : (m < n)%nat -> (prevn n m < n)%nat.
 Proof. intros H. unfold prevn. destruct (Nat.eqb m 0); lia. Qed.
 Lemma nextn_lt n m : (m < n)%nat -> (nextn n m < n)%nat.
